@@ -538,6 +538,6 @@ def run(tier):
     rep.need_instances("O02 obligations generated", len(rep.obligations), 500 if tier == "quick" else 900)
     rep.trusted = ["clang 14 IR generation and -O2 pipeline (normaliser)", "vlib/viewspec.py + the law tables in checks/c02.py",
                    "vlib/poly.py + vlib/irval.py", "clang front end for W02"]
-    rep.assumptions = ["flat-range laws are decided for zero-based views here; re-based views are C19's flat obligations",
-                       "index-tuple/position coupling of the flat iterator's ++/-- is R02.couple (engine A) + O02.canon"]
+    rep.assumptions = ["flat-range laws are decided for zero-based views here; the same family with free index bases runs under C19",
+                       "the successor / predecessor function of the flat iterator is decided by O02.canon on extensions_t, its use by the iterator by O02.flat.step"]
     return rep
